@@ -60,7 +60,7 @@ def check_unsat(fs, timeout=None, model_vars=()):
                 pass
         return mv
     s = z3.Solver()
-    s.set('timeout', int((min(timeout, 10) if ufs else timeout) * 1000))
+    s.set('timeout', int((min(timeout, 3) if ufs else timeout) * 1000))
     s.add(*fs)
     r = s.check()        # uninterpreted index maps: congruence only
     if r == z3.unsat:
@@ -71,7 +71,7 @@ def check_unsat(fs, timeout=None, model_vars=()):
         # the defining facts of the index maps, instantiated at every application
         # that occurs in the formula (ground instances: no quantifiers)
         s = z3.Solver()
-        s.set('timeout', int(min(timeout, 20) * 1000))
+        s.set('timeout', int(timeout * 1000))
         s.add(*fs)
         s.add(*ground_axioms(fs))
         r = s.check()
